@@ -65,7 +65,8 @@ pub struct Aggregate {
     pub log_hashes: BTreeMap<u64, u64>,
     pub samples: Vec<Value>,
     /// free-form per-run records a check wants to see again after the batch (population oracles)
-    pub records: Vec<(u64, &'static str, f64)>,
+    pub records: Vec<(u64, String, f64)>,
+    pub harness_errors: Vec<(u64, String)>,
 }
 
 impl Aggregate {
@@ -85,6 +86,9 @@ impl Aggregate {
         }
         self.games.insert(m.game_hash);
         self.log_hashes.insert(idx, m.log_hash);
+        for (k, v) in &m.records {
+            self.records.push((idx, k.clone(), *v));
+        }
     }
 }
 
@@ -155,6 +159,7 @@ pub fn run_batch<P: Prop>(p: &P, tier: Tier, seed: u64, n_runs: u64, wall_cap_s:
                                 Verdict::Pass => "pass".to_string(),
                                 Verdict::Skip(r) => format!("skip:{r}"),
                                 Verdict::Violation(v) => format!("violation:{}", v.class),
+                                Verdict::Harness(e) => format!("harness-error:{e}"),
                             }),
                         );
                     }
@@ -163,6 +168,7 @@ pub fn run_batch<P: Prop>(p: &P, tier: Tier, seed: u64, n_runs: u64, wall_cap_s:
                 match out.verdict {
                     Verdict::Pass => a.passes += 1,
                     Verdict::Skip(r) => *a.skips.entry(r).or_insert(0) += 1,
+                    Verdict::Harness(e) => a.harness_errors.push((idx, e)),
                     Verdict::Violation(v) => {
                         drop(a);
                         let mut f = found.lock().unwrap();
@@ -388,6 +394,10 @@ pub fn replay<P: Prop>(p: &P, path: &str) -> i32 {
             println!("no verdict on replay: {r}");
             0
         }
+        Verdict::Harness(e) => {
+            eprintln!("HARNESS-ERROR on replay: {e}");
+            2
+        }
     }
 }
 
@@ -429,6 +439,14 @@ pub fn check_main<P: Prop>(p: &P, tier: Tier) -> Outcome {
         exit = 1;
     }
     let mut agg = res.agg;
+    agg.records.sort_by(|a, b| a.0.cmp(&b.0).then(a.1.cmp(&b.1)));
+    if !agg.harness_errors.is_empty() {
+        agg.harness_errors.sort();
+        for (i, e) in agg.harness_errors.iter().take(5) {
+            eprintln!("HARNESS-ERROR run_index={i}: {e}");
+        }
+        return Outcome { exit: 2 };
+    }
     if exit == 0 {
         if let Some(v) = p.population_verdict(&agg) {
             // population-level violations have no single replayable case: the replay file
